@@ -68,6 +68,13 @@ Record site := {
   s_effects : list effect
 }.
 
+(* a reference, in library code, to incidental process state: wall clock, global random source, process identity ...
+   (the property fixes clock, UUID source and random source as INPUTS: goflow takes them from injectable generators) *)
+Record ambient_call := { am_pkg : string; am_func : string; am_callee : string }.
+
+Definition ambient_ok (allowed : list (string * string * string)) (a : ambient_call) : bool :=
+  existsb (fun x => String.eqb (am_pkg a) (fst (fst x)) && String.eqb (am_func a) (snd (fst x)) && String.eqb (am_callee a) (snd x)) allowed.
+
 Definition sortkind_eqb (a b : sortkind) : bool :=
   match a, b with
   | SortNone, SortNone | SortTotal, SortTotal | SortBy, SortBy => true
